@@ -212,7 +212,7 @@ def main():
     chk.assumptions = ['refxslt computes the 5.5 winner with refxpath pattern matching', 'conflicting rules of equal precedence and priority: the last is chosen (the recovery XSLT allows); '
                        'conflict warnings cannot be switched on through XalanTransformer, so their influence is not observed']
     chk.ensure('plain', 'xvdrv')
-    n = 3000 if chk.tier == 'quick' else 120000
+    n = 6000 if chk.tier == 'quick' else 120000
     chk.run_cases('c10', 'case', range(n))
     chk.finish(min_nontrivial=50, required_stats=('agree',))
 
